@@ -436,9 +436,26 @@ Definition oracle_consumers (ops : list cop) (obs : list (cobs * digest)) : bool
   forallb (fun q => shape_ok false (flat_map (fun '(q', it) => if q' =? q then [it] else []) rc))
           (consumer_queues rc).
 
+(* O-heartbeats: a pass over the heartbeat timers in which the receive timer has expired (no
+   byte from the server for two intervals) ends the connection with MissedServerHeartbeats -
+   whatever else is going on: a close in flight, a sealed buffer, a client exception (C05, C17) *)
+Fixpoint rx_expired (fired : list (hbkind * bool)) : bool :=
+  match fired with
+  | [] => false
+  | (HbRx, true) :: _ => true
+  | _ :: rest => rx_expired rest
+  end.
+Definition oracle_heartbeats (ops : list cop) (obs : list (cobs * digest)) : bool :=
+  forallb (fun '(o, (b, _)) =>
+             match o, b with
+             | OEvent (EvHeartbeat fired), BOutcome out _ _ =>
+                 if rx_expired fired then outcome_eqb out (OErr EMissedHeartbeats) else true
+             | _, _ => true
+             end) (combine ops obs).
+
 Definition oracle_core (c : case) : bool :=
   let '(_, _, ops, obs, aux) := c in
-  oracle_no_panic obs && oracle_content ops obs aux && oracle_consumers ops obs.
+  oracle_no_panic obs && oracle_content ops obs aux && oracle_consumers ops obs && oracle_heartbeats ops obs.
 
 Fixpoint bad_idx {A} (f : A -> bool) (i : N) (l : list A) : list N :=
   match l with
